@@ -39,6 +39,7 @@ type Clause struct {
 	Name   string // ghost name
 	Line   int
 	used   bool
+	TypeInv bool // requires clause that restates a type invariant
 	Assumed bool // "assume ..." clause: used at call sites, never verified (listed as trusted)
 }
 
@@ -251,6 +252,12 @@ func parseContracts(path string) (*ContractFile, error) {
 		switch word {
 		case "requires", "ensures", "lemma":
 			c.Kind = word
+			if word == "requires" && strings.HasPrefix(rest, "typeinv ") {
+				// restates a declared type invariant: established by the typeinv
+				// frame.write argument, not re-proved at every (non-owner) call site
+				c.TypeInv = true
+				rest = strings.TrimSpace(strings.TrimPrefix(rest, "typeinv "))
+			}
 			if m := labelRe.FindStringSubmatch(rest); m != nil {
 				c.Label = m[1]
 				rest = rest[len(m[0]):]
